@@ -15,7 +15,7 @@ macro_rules! bsv {
     };
 }
 
-const NTHREADS: usize = 2;
+const NTHREADS: usize = 3;
 static mut DREGS: [[usize; 8]; NTHREADS] = [[0; 8]; NTHREADS];
 /// number of write_user calls (to show "refused without side effects")
 static mut WRITES: usize = 0;
@@ -24,6 +24,7 @@ fn tidx(pid: Pid) -> Option<usize> {
     match pid.as_raw() {
         7 => Some(0),
         8 => Some(1),
+        9 => Some(2),
         _ => None,
     }
 }
@@ -241,7 +242,7 @@ fn any_state() -> [usize; 8] {
     kani::assume(((dr7 >> 8) & 1 == 1) == any_l);
     let st = [a[0], a[1], a[2], a[3], 0, 0, dr6, dr7];
     unsafe {
-        DREGS = [st, st];
+        DREGS = [st, st, [0; 8]];
         WRITES = 0;
     }
     st
@@ -419,4 +420,46 @@ fn c14_already_observed() {
     kani::cover!(true, "BSV-END");
     std::mem::forget(res);
     std::mem::forget(ctl);
+}
+
+//@ harness: c14_new_thread_inherits
+//@ property: C14
+//@ obligation: H-C14-c
+//@ tier: quick
+//@ encodes: WatchpointRegistry::distribute_to_tracee, HardwareDebugState::sync
+//@ symbolic: the debug-register image last written by the registry (DR0-3, DR6, DR7: any values), whether the registry has written one at all
+//@ bounds: one newly created thread (pid 9) with zeroed debug registers; unwind 6
+//@ oracle: a thread created later inherits the active watchpoint set: after distribution its DR0-3 and DR7 equal the image the other threads hold; with no watchpoint ever set nothing is written
+//@ stubs: ptrace::write_user -> per-thread u_debugreg array
+//@ outside: that tracer.rs calls distribute_to_tracee on PTRACE_EVENT_CLONE / PTRACE_EVENT_STOP (event handling, C09)
+//@ timeout: 900
+#[kani::proof]
+#[kani::stub(nix::sys::ptrace::read_user, stub_read_user)]
+#[kani::stub(nix::sys::ptrace::write_user, stub_write_user)]
+#[kani::unwind(6)]
+fn c14_new_thread_inherits() {
+    let pre = any_state();
+    let has_state: bool = kani::any();
+    let state = if has_state {
+        Some(HardwareDebugState { address_regs: [pre[0], pre[1], pre[2], pre[3]], dr6: mk_dr6(pre[6]), dr7: mk_dr7(pre[7]) })
+    } else {
+        None
+    };
+    let reg = WatchpointRegistry { watchpoints: Vec::new(), last_seen_state: state };
+    let t = Tracee { number: 2, pid: Pid::from_raw(9), status: crate::debugger::debugee::tracee::TraceeStatus::Running };
+    let r = reg.distribute_to_tracee(&t);
+    bsv!(r.is_ok(), "distribution succeeds");
+    let now = unsafe { DREGS };
+    if has_state {
+        bsv!(now[2][0] == pre[0] && now[2][1] == pre[1] && now[2][2] == pre[2] && now[2][3] == pre[3], "the new thread watches the same addresses");
+        bsv!(now[2][7] == pre[7], "the new thread has the same control register (enable bits, R/W, LEN)");
+    } else {
+        bsv!(unsafe { WRITES } == 0, "without watchpoints the new thread is left alone");
+    }
+    bsv!(same(&now[0], &pre) && same(&now[1], &pre), "existing threads are not touched");
+    kani::cover!(has_state && pre[7] & 0b0101_0101 == 0b0101_0101, "four live watchpoints inherited");
+    kani::cover!(!has_state, "no watchpoint was ever set");
+    kani::cover!(true, "BSV-END");
+    std::mem::forget(r);
+    std::mem::forget(reg);
 }
